@@ -22,6 +22,15 @@ os.environ.setdefault("BUIDL_PYTHON_VERIF", "1")
 
 
 def _job(spec):
+    import contextlib
+    import io
+    # the library prints diagnostics ("bad op: ...", "mismatch between length ...") while it rejects inputs: keep the
+    # check's own stdout for VIOLATION / KNOWN-FINDING / summary lines only
+    with contextlib.redirect_stdout(io.StringIO()):
+        return _job_inner(spec)
+
+
+def _job_inner(spec):
     kind, prop, key, tier, seed = spec
     t0 = time.time()
     try:
@@ -99,9 +108,12 @@ def main(argv=None):
     P = importlib.import_module("verif.props." + prop)
     specs = []
     skipped_tier = []
+    runtime_only = []
     for k in getattr(P, "CONTRACTS", []):
         if tier in verifier.REG.contracts[k].tiers:
             specs.append(("contract", prop, k, tier, seed))
+        elif "runtime-only" in verifier.REG.contracts[k].tiers:
+            runtime_only.append(k)
         else:
             skipped_tier.append(k)
     for k, _ in getattr(P, "TABLES", []):
@@ -111,14 +123,20 @@ def main(argv=None):
     if a.only:
         specs = [s for s in specs if a.only in s[2]]
     job_timeout = getattr(P, "JOB_TIMEOUT", {"quick": 240, "thorough": 1500})[tier]
+    # symbolic exploration of one contract stops gracefully (remaining paths undecided) before the pool would kill the job
+    os.environ.setdefault("PYVC_WALL_BUDGET_S", str(int(job_timeout * 0.8)))
     outs = []
     ctx = mp.get_context("fork")
     pool = ctx.Pool(max(1, min(a.jobs, len(specs))))
     try:
+        nproc = max(1, min(a.jobs, len(specs)))
+        t_pool = time.time()
         asyncs = [(s, pool.apply_async(_job, (s,))) for s in specs]
-        for s, ar in asyncs:
+        for idx, (s, ar) in enumerate(asyncs):
+            # deadline per job, not per wait: job idx starts at the latest after idx // nproc earlier rounds
+            deadline = t_pool + job_timeout * (1 + idx // nproc)
             try:
-                outs.append(ar.get(timeout=max(5, job_timeout - (time.time() - t0) * 0 )))
+                outs.append(ar.get(timeout=max(5, deadline - time.time())))
             except mp.TimeoutError:
                 outs.append({"kind": s[0], "key": s[2], "crash": "job timeout %ds" % job_timeout, "timeout": True, "wall": job_timeout})
     finally:
@@ -155,7 +173,8 @@ def main(argv=None):
             if o["kind"] == "contract":
                 st = o.get("stats", {})
                 fn_stats[o["key"]] = {"paths": st.get("paths"), "returning": st.get("paths_returning"),
-                                      "raising": st.get("paths_raising"), "obligations": nres, "wall_s": round(o["wall"], 2)}
+                                      "raising": st.get("paths_raising"), "obligations": nres,
+                                      "discharged": sum(1 for r in o["results"] if r["status"] == "ok"), "wall_s": round(o["wall"], 2)}
                 if nres == 0:
                     crashes.append({"job": o["key"], "why": "vacuity: contract generated zero obligations"})
         else:
@@ -227,6 +246,19 @@ def main(argv=None):
         lines.append("KNOWN-FINDING: property=%s %s  [%d failing obligations/cases match]" % (prop, what, len(names)))
     for u in undecided:
         lines.append("UNDECIDED property=%s obligation=%s (%s)" % (prop, u["obligation"], u["why"][:120].replace("\n", " ")))
+    # coverage baseline (verif/baseline/<prop>.json, written by verif.tools.mkbaseline from a run on the unchanged tree): a contract
+    # that discharges fewer obligations than it did there has slipped out of the engine's reach -- reported, never a violation
+    coverage_loss = []
+    try:
+        base = json.load(open(os.path.join(ROOT, "verif", "baseline", prop + ".json"))).get(tier, {})
+    except Exception:
+        base = {}
+    for cname, want in sorted(base.items()):
+        have = fn_stats.get(cname, {}).get("discharged")
+        if have is not None and have < want and not a.only:
+            coverage_loss.append({"contract": cname, "discharged": have, "baseline": want})
+            lines.append("COVERAGE-LOSS property=%s contract=%s discharged=%d baseline=%d (obligations no longer decided; not a violation)"
+                         % (prop, cname, have, want))
     for c in crashes:
         lines.append("CHECKER-ERROR property=%s job=%s: %s" % (prop, c["job"], c["why"].strip().splitlines()[-1][:200] if c["why"].strip() else ""))
         sys.stderr.write("CHECKER-ERROR %s %s\n%s\n" % (prop, c["job"], c["why"]))
@@ -255,11 +287,13 @@ def main(argv=None):
             "functions_under_contract": [{"function": k, **v} for k, v in sorted(sources.items()) if k.startswith("buidl.")],
             "spec_functions_used": sorted(k for k in sources if not k.startswith("buidl.")),
             "per_contract": fn_stats,
+            "coverage_loss_vs_baseline": coverage_loss,
             "backends": backends, "solver_seconds": round(solver_s, 2),
             "undecided": undecided[:50], "checker_errors": crashes[:20],
             "bounded_checks": bounded_summary,
             "known_findings_matched": {k: len(v) for k, v in known_hits.items()},
             "contracts_deductive_only_in_thorough_tier": skipped_tier,
+            "contracts_checked_at_run_time_only": runtime_only,
             "exhaustive": False,
         },
         "assumptions": getattr(P, "ASSUMPTIONS", []),
